@@ -51,17 +51,20 @@ def gen_enum(rng, prefixes):
     return members, rng.random() < 0.3
 
 
-def run_batch(enums, consts, prefixes, unpref, passes=False, comments=()):
+def run_batch(enums, consts, prefixes, unpref, passes=False, comments=(), aliases_last=False):
     from scanner import (run, enum_typedef, const, td, FS, CSYMBOL_TYPE_TYPEDEF, CORE, CNS, gir_ns)
     syms = []
-    for a, t in ALIASES.items():
-        syms.append(FS(CSYMBOL_TYPE_TYPEDEF, a, base_type=td(t)))
+    alias_syms = [FS(CSYMBOL_TYPE_TYPEDEF, a, base_type=td(t)) for a, t in ALIASES.items()]
+    if not aliases_last:
+        syms += alias_syms
     for i, (members, bitfield) in enumerate(enums):
         syms.append(enum_typedef('FooE%d' % i, members, bitfield=bitfield, line=10 * i + 1))
     for i, (kind, ty, val) in enumerate(consts):
         kw = {'const_int': val} if kind == 'int' else {'const_string': val} if kind == 'str' else \
             {'const_boolean': val} if kind == 'bool' else {'const_double': val}
         syms.append(const('FOO_K%d' % i, td(ty) if ty else None, **kw))
+    if aliases_last:
+        syms += alias_syms       # the typedefs the constants are cast to are declared after them
     r = run(syms, symbol_prefixes=list(prefixes), accept_unprefixed=unpref, passes=passes, warnings=False, comments=list(comments))
     ns = gir_ns(r.root)
     eobs = {}
@@ -120,10 +123,20 @@ def main(tier, seed):
         comments = [('/**\n * FOO_K%d:\n *\n * The constant number %d.\n */' % (i, i), '/src/foo.h', 1000 + 10 * i) for i in documented]
         try:
             _, kobs2 = run_batch([], consts, prefixes, unpref, passes=True, comments=comments)
+            # once more with the typedefs declared after the constants that are cast to them.  The real lexer parses macros after
+            # all declarations, so this order is a property of the Python passes only; only the type name is judged in it
+            # (at creation the constant cannot know the width of a type declared later, so its value is as written)
+            _, kobs3 = run_batch([], consts, prefixes, unpref, passes=True, aliases_last=True)
         except (Exception, SystemExit) as e:      # noqa
             ck.failing_input('the scanner fails on documented constants: %r' % (e,), dict(consts=consts, documented=documented))
             kobs2 = None
         if kobs2 is not None:
+            for i, (kind, ty, val) in enumerate(consts):
+                for order, ko in (('before', kobs2), ('after', kobs3)):
+                    b2 = ko.get('FOO_K%d' % i)
+                    if kind == 'int' and ty in ALIASES and b2 is not None and b2[2] != ty[3:]:
+                        ck.failing_input('a constant cast to a typedef of the namespace does not name that type (typedef declared %s the constant)'
+                                         % order, dict(kind=kind, type=ty, value=val), detail=b2)
             for i in documented:
                 a, b2 = kobs.get('FOO_K%d' % i), kobs2.get('FOO_K%d' % i)
                 if a is not None and (b2 is None or b2[1] != a[1]):
